@@ -6,6 +6,7 @@
 pub mod alloc;
 pub mod cmd_arbitrary;
 pub mod cmd_codec;
+pub mod cmd_geo;
 pub mod cmd_complete;
 pub mod cmd_rings;
 pub mod cmd_types;
